@@ -21,7 +21,10 @@ from yaml.events import (AliasEvent, DocumentEndEvent, DocumentStartEvent,
 
 import yatiml
 import yatiml.dumper as ydumper
-from yatiml.dumper import JsonDumperState as St
+try:
+    from yatiml.dumper import JsonDumperState as _RealSt
+except ImportError:         # representation changed: see STEP_MODEL_OK
+    _RealSt = None
 from vlib import values
 from vlib.common import (P, SYMBOLIC, T_BOOL, T_FLOAT, T_INT, T_NULL, T_STR,
                          T_TS, install_stubs, note, pick, plain, slice_no, tier)
@@ -68,6 +71,24 @@ class Sink:
 
 
 _DUMPER = yatiml.dumps_json_function().dumper
+# The one-step conditions describe the emitter's state by the names the
+# implementation uses.  If a tree represents that state differently, the
+# one-step model does not apply to it: those conditions are reported as
+# SKIPPED (inconclusive) and the whole-document conditions, which use the
+# public API only, still decide the property.
+_ST_NAMES = ('NONE', 'SEQUENCE', 'SEQUENCE_FIRST', 'MAPPING_KEY',
+             'MAPPING_KEY_FIRST', 'MAPPING_VALUE')
+STEP_MODEL_OK = (_RealSt is not None
+                 and all(hasattr(_RealSt, n) for n in _ST_NAMES)
+                 and len(list(_RealSt)) == len(_ST_NAMES))
+
+
+class _NoSt:
+    NONE = SEQUENCE = SEQUENCE_FIRST = MAPPING_KEY = MAPPING_KEY_FIRST = \
+        MAPPING_VALUE = None
+
+
+St = _RealSt if STEP_MODEL_OK else _NoSt
 _STATES = [St.SEQUENCE, St.SEQUENCE_FIRST, St.MAPPING_KEY,
            St.MAPPING_KEY_FIRST, St.MAPPING_VALUE]
 _TAGS = [T_STR, T_NULL, T_BOOL, T_TS, T_INT, T_FLOAT]
@@ -561,6 +582,11 @@ _RELOAD_MODELS = [values.MODEL_IDX[n] for n in
                   ('doc', 'styled', 'loose', 'opt', 'order', 'company',
                    'lamp', 'derived', 'track', 'top_list', 'top_dict')]
 
+SKIPPED = [] if STEP_MODEL_OK else [
+    'c07_json.step: the one-step model of emit_json does not apply to this '
+    'tree (yatiml.dumper.JsonDumperState is not the six-state enum the model '
+    'is written against); only the whole-document conditions were run']
+
 CONDITIONS = [
     {'fn': 'step', 'slices': list(range(8)), 'quick': 110, 'thorough': 400,
      'bound': 'one slice per event kind: top state over 5 states or NONE, '
@@ -570,6 +596,7 @@ CONDITIONS = [
               'tag out of 6 with one of 5 values'},
     {'fn': 'step_reach', 'quick': 60, 'thorough': 60, 'expect': 'REFUTED',
      'bound': 'reachability twin of step'},
+][:2 if STEP_MODEL_OK else 0] + [
     {'fn': 'whole_shapes', 'quick': 110, 'thorough': 200,
      'twin': 'whole_reach',
      'bound': '24 tree shapes x indent None/0..8 x ensure_ascii with a plain '
